@@ -563,6 +563,16 @@ def check_pvalue(rep, case):
     queries = [("pvalue", rm.f32(s)) for s in (mn - 1.0, mn, mn + (mx - mn) * 0.25, mn + (mx - mn) * 0.5, mn + (mx - mn) * 0.75,
                                                 mn + (mx - mn) * 0.9, mx, mx + 1.0, 0.0)]
     queries += [("score", p) for p in (1e-6, 1e-4, 1e-3, 0.01, 0.05, 0.25, 0.5, 0.9, 0.999)]
+    # double-precision scores that are NOT f32 values, a hair below / above attainable totals (narrow matrices only):
+    # the TFM-PVALUE method takes its score in double precision
+    w = len(rows)
+    if w <= 4 and all(x == x and abs(x) != float("inf") for r in rows for x in r[:-1]):
+        import itertools
+        k = len(rows[0]) - 1
+        totals = sorted({sum(float(rows[i][c]) for i, c in enumerate(word)) for word in itertools.product(range(min(k, 4)), repeat=w)})
+        pick = totals if len(totals) <= 8 else [totals[i * (len(totals) - 1) // 7] for i in range(8)]
+        for a in pick:
+            queries += [("pvalue", a - 1e-9), ("pvalue", a + 1e-9)]
     if order == "rev":
         queries = queries[::-1]
     core = {("pvalue", "meme"): vxref.core_meme_pvalue, ("score", "meme"): vxref.core_meme_score,
@@ -597,7 +607,7 @@ def check_pvalue(rep, case):
 def run_pvalue(ctx, rep):
     rep.space("pvalue", "ScoringMatrix.pvalue(score, method) / .score(pvalue, method) for method in {meme, tfmpvalue}: 19 matrices (create->normalize->log_odds "
               "DNA widths 3/7/15 + README motif with uniform and with a given background + protein width 3; ScoringMatrix(values, background) DNA widths 1/2/3/7 x 3 backgrounds, protein width 2) x 9 scores "
-              "(below min .. above max, 0) + 9 p-values in (0,1), asked on ONE object in forward and in reverse order (cached distribution) and on fresh objects; "
+              "(below min .. above max, 0) + 9 p-values in (0,1) + (width <= 4) double-precision scores 1e-9 below / above 8 attainable totals, asked on ONE object in forward and in reverse order (cached distribution) and on fresh objects; "
               "oracle = the core library on the same f32 rows and background (bit-identical results demanded); one evaluation = one query")
     for i, case in enumerate(pvalue_cases(ctx)):
         if not ctx.mine(i):
